@@ -195,7 +195,12 @@ def run_function(repo, ref, args=(), kwargs=None, depth=0, outer=None):
         elif n in kwargs:
             env[n] = kwargs.pop(n)
         elif n in defaults:
-            env[n] = _Interp(repo, module, dict(outer or {}), depth).expr(defaults[n])
+            # a default value is evaluated once, when the function is defined: a mutable default is shared by all calls
+            cache = repo.__dict__.setdefault("_default_values", {})
+            key = (id(fn), n)
+            if key not in cache:
+                cache[key] = _Interp(repo, module, dict(outer or {}), depth).expr(defaults[n])
+            env[n] = cache[key]
         else:
             raise Raised("TypeError")
     if fn.args.vararg is not None:
@@ -490,6 +495,11 @@ class _Interp(object):
                     raise Raised("ValueError")
             raise Unknown("attribute %s" % n.attr)
         if isinstance(n, ast.Name) and n.id not in self.env:
+            gov = getattr(self.repo, "global_overrides", None)
+            if gov:
+                cn = self.repo.canon(self.module, n.id) if n.id in self.module.bindings else None
+                if cn in gov:
+                    return gov[cn]
             ref = self.repo.resolve(self.module, n.id)
             if ref is not None and ref.node is not None and isinstance(ref.node, (ast.FunctionDef, ast.Lambda)):
                 return ref
